@@ -44,7 +44,7 @@ from engine.core import MachineryError, digest
 
 OWN = 'P4'
 C4_ACTIONS = ['AddHandler', 'Start', 'XReqCall', 'XRsrcCall', 'XResponder', 'XRespCall', 'RenderCall', 'XRenderFail', 'RenderBad', 'Route',
-              'NotFound', 'HandleCall']
+              'NotFound', 'HandleCall', 'NextRequest']
 ALL_BEHS = ['set', 'setbad', 'noop', 'http', 'status', 'other']
 
 
@@ -81,7 +81,7 @@ def observe_render(ex, res, tag_handlers):
     return obs
 
 
-def check_render(ctx, cell, fields, asgi, leg):
+def check_render(ctx, cell, fields, asgi, leg, site='responder'):
     """Replay one cell of TLC's rendering table with concrete field values.  Returns the observation."""
     acc, out = cell['acc'], cell['out']
     accept = H.accept_text(acc)
@@ -93,8 +93,8 @@ def check_render(ctx, cell, fields, asgi, leg):
     f.code = (fields.code if fields.code is not None else 42) if e['code'] else None
     f.href = (fields.href or 'http://example.com/help') if e['link'] else None
     f.href_text = fields.href_text if e['link'] else None
-    ex, res, hs = H.render_case(accept, cell['xmlOn'], extra, f, asgi=asgi)
-    case = {'leg': leg, 'iface': 'asgi' if asgi else 'wsgi', 'accept': accept, 'xmlOn': cell['xmlOn'], 'extra': extra,
+    ex, res, hs = H.render_case(accept, cell['xmlOn'], extra, f, asgi=asgi, site=site)
+    case = {'leg': leg, 'iface': 'asgi' if asgi else 'wsgi', 'site': site, 'accept': accept, 'xmlOn': cell['xmlOn'], 'extra': extra,
             'err': e, 'fields': vars(f), 'spec': out}
     if res.exc is not None or ex is None:
         ctx.violation('P4:escaped', case, 'exception left the app: %r' % (res.exc,))
@@ -195,7 +195,7 @@ def run(ctx):
     ctx.progress('leg M done: %d + %d distinct states, %d rendering cells' % (r.distinct, rt.distinct, len(table)))
 
     # ---- leg A: pipeline behaviours --------------------------------------------------------------
-    ra = ctx.tlc('MC_Pipeline', ctx.pick('MC_PipelineHA.cfg', 'MC_PipelineHA2.cfg'), env=env, workers=4, timeout=ctx.pick(280, 1500), count=False)
+    ra = ctx.tlc('MC_PipelineS', ctx.pick('MC_PipelineS_HA.cfg', 'MC_PipelineS_HA2.cfg'), env=env, workers=4, timeout=ctx.pick(280, 1500), count=False)
     behaviours = list({digest(b): b for b in ra.json}.values())
     ctx.extra['spec_behaviours_exported'] = len(behaviours)
     cap = ctx.pick(5000, 150000)
@@ -203,7 +203,17 @@ def run(ctx):
         rng.shuffle(behaviours)
         behaviours = behaviours[:cap]
     H.replay_behaviours(ctx, OWN, behaviours, both=False, seen_other=seen_other, label='leg A (exhaustive export)', rich=True)
-    rs = ctx.tlc('MC_Pipeline', 'MC_PipelineHSim.cfg', env=env, simulate={'num': ctx.pick(250, 6000)}, depth=40,
+    # sessions: two requests on one application object with registrations in between (exhaustive, small universe)
+    rr = ctx.tlc('MC_PipelineS', ctx.pick('MC_PipelineS_R.cfg', 'MC_PipelineS_R2.cfg'), env=env, workers=4,
+                 timeout=ctx.pick(280, 1500), count=False)
+    sessions = list({digest(b): b for b in rr.json}.values())
+    ctx.extra['spec_sessions_exported'] = len(sessions)
+    cap = ctx.pick(3000, 60000)
+    if len(sessions) > cap:
+        rng.shuffle(sessions)
+        sessions = sessions[:cap]
+    H.replay_behaviours(ctx, OWN, sessions, both=False, seen_other=seen_other, label='leg A (two-request sessions)', rich=True)
+    rs = ctx.tlc('MC_PipelineS', 'MC_PipelineS_HSim.cfg', env=env, simulate={'num': ctx.pick(250, 6000)}, depth=40,
                  seed=ctx.seed + 1, workers=4, timeout=600, count=False)
     deep = list({digest(b): b for b in rs.json}.values())
     rng.shuffle(deep)
@@ -217,8 +227,9 @@ def run(ctx):
         for k in range(ctx.pick(2, 8)):
             for asgi in (False, True):
                 f = H.Fields(frng, 1, xml_safe=False)
-                obs, case = check_render(ctx, cell, f, asgi, 'A-render')
-                ctx.case(case, nontrivial=not cell['acc']['absent'], key=digest([cell, vars(f), asgi]))
+                site = 'render' if k % 2 else 'responder'      # the same rendering is due at every raise site
+                obs, case = check_render(ctx, cell, f, asgi, 'A-render', site)
+                ctx.case(case, nontrivial=not cell['acc']['absent'], key=digest([cell, vars(f), asgi, site]))
                 n += 1
                 if obs is not None:
                     compare_render(ctx, cell, obs, case)
@@ -229,14 +240,17 @@ def run(ctx):
     items = []
     for k in range(ctx.pick(5000, 120000)):
         regs = [{'cls': rng.choice(H.ALL_CLASSES), 'beh': rng.choice(ALL_BEHS)} for _ in range(rng.randint(0, 6))]
-        trace, case, rec, res, got = H.random_trace(rng, asgi=bool(k & 1), ncomp=rng.randint(0, 3), maxhooks=1, regs=regs,
-                                                    classes=H.ALL_CLASSES, maxfaults=3, render_p=0.15, rich=True)
-        ctx.case(case, nontrivial=H.nontrivial_c04({'reg': regs, 'calls': rec.calls}), key=digest(trace))
-        if rec.wrong or res.errors:
-            ctx.violation('P4:protocol', case, 'harness anomaly %r / protocol errors %r' % (rec.wrong, res.errors))
+        trace, case, runs = H.random_trace(rng, asgi=bool(k & 1), ncomp=rng.randint(0, 3), maxhooks=1, regs=regs,
+                                           classes=H.ALL_CLASSES, maxfaults=3, render_p=0.15, rich=True,
+                                           nreqs=rng.choice([1, 2, 2, 3]))
+        ctx.case(case, nontrivial=len(runs) > 1 or H.nontrivial_c04({'reg': regs, 'calls': runs[0][0].calls}), key=digest(trace))
+        bad = [(rec.wrong, res.errors) for rec, res, _ in runs if rec.wrong or res.errors]
+        if bad:
+            ctx.violation('P4:protocol', case, 'harness anomaly / protocol errors %r' % (bad,))
             continue
-        for clause, what in H.faithful(rec, res, got):
-            H.report(ctx, OWN, clause, dict(case, got_final=got), what, seen_other)
+        for rec, res, got in runs:
+            for clause, what in H.faithful(rec, res, got):
+                H.report(ctx, OWN, clause, dict(case, got_final=got), what, seen_other)
         items.append((trace, case))
     nj = H.judge_traces(ctx, OWN, env, items, seen_other)
     ctx.extra['distinct_traces_judged'] = nj
@@ -250,7 +264,7 @@ def run(ctx):
         cell = {'acc': random_accept(rng), 'xmlOn': rng.random() < 0.7, 'extra': rng.choice([[], [tag], [axml], [tag, axml]]),
                 'err': {'status': 422, 'desc': rng.random() < 0.5, 'code': rng.random() < 0.5, 'link': rng.random() < 0.5},
                 'out': {'status': 422, 'kind': '?', 'ctype': {'t': '', 's': ''}, 'fields': []}}
-        obs, case = check_render(ctx, cell, H.Fields(rng, 1), bool(k & 1), 'B-render')
+        obs, case = check_render(ctx, cell, H.Fields(rng, 1), bool(k & 1), 'B-render', rng.choice(['responder', 'render']))
         ctx.case(case, nontrivial=not cell['acc']['absent'], key=digest(case['obs'] if obs else k))
         if obs is None:
             continue
@@ -288,7 +302,8 @@ def replay(ctx, case):
         f = H.Fields()
         for k, v in case['fields'].items():
             setattr(f, k, v)
-        ex, res, hs = H.render_case(case['accept'], case['xmlOn'], case['extra'], f, asgi=case['iface'] == 'asgi')
+        ex, res, hs = H.render_case(case['accept'], case['xmlOn'], case['extra'], f, asgi=case['iface'] == 'asgi',
+                                    site=case.get('site', 'responder'))
         print('status:', res.status, 'headers:', res.headers, '\nbody:', res.body, '\nexc:', res.exc)
         obs = observe_render(ex, res, hs)
         print('observed:', {k: obs[k] for k in ('status', 'kind', 'ctype', 'vary', 'fields')}, '\nspecified:', case.get('spec'))
